@@ -107,7 +107,7 @@ def jobs_blocked(tier):
                 j.append(("blk%d n<=3 pointwise pal%d" % (bs, pl), cfg_blk(bs, [1, 2, 3], POINTWISE, [pl], 0, 99, 1)))
                 j.append(("blk%d n<=3 poly pal%d" % (bs, pl), cfg_blk(bs, [2, 3], ["poly"], [pl], 0, 99, 1)))
                 # blocked mean filters (one vector pair per component) and chains, every kind
-                j.append(("blk%d n<=3 mean filters pal%d" % (bs, pl), cfg_blk(bs, [2, 3], ALL, [pl], 0, 3, 3)))
+                j.append(("blk%d n<=3 mean filters pal%d" % (bs, pl), cfg_blk(bs, [2, 3], ALL, [pl], 0, 2 if bs == 2 else 1, 3)))
             j.append(("blk%d histories n=2" % bs, cfg_blk(bs, [2], ALL, [1, 2], 0, 2, 0, "hist", 6)))
             j.append(("blk%d histories n=3" % bs, cfg_blk(bs, [3], ["sor", "ssor", "ilu", "poly", "jacobi"], [3], 3, 3, 0, "hist", 5)))
         j.append(("blk1 == scalar", cfg_blk(1, [1, 2, 3], ALL, [1, 2, 3], 0, 99, 1, emit=False)))
